@@ -238,3 +238,9 @@ impl Encoder<Message<(RequestHeadType, BodySize)>> for ClientCodec {
         Ok(())
     }
 }
+
+#[cfg(kani)]
+#[allow(semicolon_in_expressions_from_non_local_macros, unused)]
+mod verif_kani {
+    include!(concat!(env!("VERIF_HARNESS"), "/actix_http/h1_client.rs"));
+}
